@@ -575,3 +575,88 @@ def wl_hard_pg(rng, cls, comps=None, hydrogens=None, decorate_p=0.5, z=None):
     if cls in STEREO and rng.random() < decorate_p:
         decorate(rng, pg, p_stereo=rng.choice([0.3, 1.0]), p_change=0.3 if cls in REACTION else 0.0)
     return pg
+
+
+# ---------------------------------------------------------------------------------------------------------------
+# large inputs: long chains and macrocycles (colour refinement needs many rounds before a distant feature is seen),
+# big random graphs, and molecule-sized graphs taken from RDKit (drug-like, polycyclic, many stereo elements)
+DRUGLIKE = [
+    "CC(C)Cc1ccc(cc1)[C@@H](C)C(=O)O",
+    "C[C@H]1CC[C@@H](C(C)C)[C@H](O)C1",
+    "CN1CC[C@]23c4c5ccc(O)c4O[C@H]2[C@@H](O)C=C[C@H]3[C@H]1C5",
+    "C[C@]12CC[C@H]3[C@@H](CCc4cc(O)ccc34)[C@@H]1CC[C@@H]2O",
+    "CC(=O)O[C@H]1C[C@@H]2CC[C@@H]3[C@H](CC[C@@]4(C)[C@H]3CC[C@@H]4C(C)=O)[C@@]2(C)CC1",
+    "O=C(O)[C@@H]1N2C(=O)[C@@H](NC(=O)Cc3ccccc3)[C@H]2SC1(C)C",
+    "C/C=C/C=C/C(=O)N[C@@H](Cc1ccccc1)C(=O)OC",
+    "OC[C@H]1O[C@@H](O[C@H]2[C@H](O)[C@@H](O)[C@H](O)O[C@@H]2CO)[C@H](O)[C@@H](O)[C@@H]1O",
+    "CCCCCCCCCCCCCCCC(=O)OC[C@H](O)COP(=O)(O)OCC[N+](C)(C)C",
+    "c1ccc2c(c1)ccc1ccc3ccc4ccccc4c3c12",
+    "C1CCCCCCCCCCCCCCC1",
+    "CCCCCCCCCCCCCCCCCCCCN",
+    "F/C=C/CCCCCCCCCC/C=C\\F",
+    "C[C@H](N)CCCCCCCCCC[C@@H](C)N",
+    "C12C3C4C1C5C2C3C45",
+    "C1CC2CCC1CC2",
+    "CC1=C(C(=O)C[C@@H]1OC(=O)[C@@H]1[C@H](C1(C)C)C=C(C)C)CC=C",
+    "N[Pt@SP1](Cl)(Cl)N",
+    "Cl[Co@OH3](N)(N)(N)(Br)F",
+]
+
+
+def _chain_or_ring_pg(rng, cls, ring):
+    n = rng.randint(12, 40) if ring else rng.randint(16, 60)
+    pg = sem.pg_empty(cls)
+    ids = make_ids(rng, n + 6)
+    for i in range(n):
+        pg["atoms"][ids[i]] = {"atom_type": 6}
+    for i in range(n - 1 + (1 if ring else 0)):
+        pg["bonds"][frozenset((ids[i], ids[(i + 1) % n]))] = {}
+    # a few substituents at random positions (far apart features)
+    k = n
+    for _ in range(rng.randint(1, 4)):
+        pos = rng.randrange(n)
+        pg["atoms"][ids[k]] = {"atom_type": rng.choice([8, 7, 9, 1])}
+        pg["bonds"][frozenset((ids[pos], ids[k]))] = {}
+        k += 1
+    if cls in REACTION:
+        for b in rng.sample(sorted(pg["bonds"], key=sorted), rng.randint(0, 3)):
+            pg["bonds"][b]["reaction"] = rng.choice(ROLES)
+    if cls in STEREO:
+        decorate(rng, pg, p_stereo=rng.choice([0.05, 0.2]), p_none=0.3, p_change=0.3 if cls in REACTION else 0.0, valid=True)
+    return pg
+
+
+def _molecule_pg(rng, cls):
+    """an RDKit molecule (explicit hydrogens) imported by the library and snapshotted; only used as an input source"""
+    from rdkit import Chem
+
+    from .snapshot import classes, snap
+
+    smi = rng.choice(DRUGLIKE)
+    m = Chem.AddHs(Chem.MolFromSmiles(smi))
+    g = classes()["StereoMolGraph"].from_rdmol(m)
+    pg = snap(g)
+    pg["cls"] = cls
+    for a in pg["atoms"].values():
+        for k in [k for k in a if k != "atom_type"]:
+            del a[k]
+    for b in pg["bonds"].values():
+        b.clear()
+    if cls not in STEREO:
+        pg["astereo"], pg["bstereo"] = {}, {}
+    if cls in REACTION:
+        plain = [b for b in sorted(pg["bonds"], key=sorted) if not any(b & frozenset(d[1]) - {None} for d in list(pg["astereo"].values()) + list(pg["bstereo"].values()))]
+        for b in rng.sample(plain, min(len(plain), rng.randint(0, 3))):
+            pg["bonds"][b]["reaction"] = rng.choice(ROLES)
+    return pg
+
+
+def large_pg(rng, cls, kind=None):
+    kind = kind or rng.choice(["random", "chain", "ring", "molecule", "molecule"])
+    if kind == "random":
+        return random_pg(rng, cls, n_range=(30, 70), alphabet=rng.choice([TINY, SMALL]), p_stereo=0.4, p_none=0.1, max_deg=4, allow_isolated=False, p_hub=0.3)
+    if kind == "chain":
+        return _chain_or_ring_pg(rng, cls, ring=False)
+    if kind == "ring":
+        return _chain_or_ring_pg(rng, cls, ring=True)
+    return _molecule_pg(rng, cls)
